@@ -249,15 +249,6 @@ Proof.
   destruct (x <? 0) eqn:X; [lia|reflexivity].
 Qed.
 
-Lemma fpowm_alias_spec b q x p : 1 < p -> 0 < q -> 0 <= x < q -> sizeinbase2 q <= TMCG_MAX_FPOWM_T ->
-  fpowm_alias (precompute b q) b x p = Some (powm b x p).
-Proof.
-  intros Hp Hq Hx Hs. unfold fpowm_alias. cbn [precompute ft_base]. rewrite Z.eqb_refl. cbn [negb].
-  rewrite (size_small x q) by assumption.
-  change (mkFtable b (Z.to_nat (Z.min (sizeinbase2 q) TMCG_MAX_FPOWM_T))) with (precompute b q).
-  now rewrite fpowm_loop_spec by assumption.
-Qed.
-
 Lemma fspowm_spec b q x p : 1 < p -> 0 < q -> powm b q p = 1 -> 0 <= x < q -> sizeinbase2 q <= TMCG_MAX_FPOWM_T ->
   fspowm (precompute b q) b x p = Some (powm b x p).
 Proof.
